@@ -220,6 +220,10 @@ class ControlFlowTransformer(converter.Base):
     # Variables that are modified inside the scope, and depend on values outside
     # it.
     input_only = basic_scope_vars & live_in - live_out
+    # Symbols declared nonlocal or global are visible outside the function, so
+    # a modification is an output even if the function itself never reads it
+    # again.
+    input_only -= fn_scope.globals | fn_scope.nonlocals
 
     # Place the outputs first, then sort lexicographically.
     scope_vars = sorted(scope_vars, key=lambda v: (v in input_only, v))
